@@ -139,6 +139,7 @@ type Case struct {
 	Ops         []string `json:"history"`
 	SameProcess bool     `json:"whole_history_in_one_process_and_directory,omitempty"`
 	Nested      bool     `json:"package_c_inner_below_package_c,omitempty"`
+	TwoModules  bool     `json:"run_spans_two_modules,omitempty"`
 }
 
 var nested bool // layout variant of the current exploration: package c/inner below package c
@@ -584,6 +585,9 @@ func run(c *core.Ctx) {
 		}
 	}
 	nested, rootFirst = false, false
+	// one run over two modules
+	checkTwoModules(c, c.Pick(3, 4))
+	c.Bound("two_module_histories", fmt.Sprintf("all histories of length <= %d over {run, run with Force, add/remove a file in the package of the replaced module}", c.Pick(3, 4)))
 	c.Sample(Case{Ops: []string{"run:all", "symlink:b", "run:all", "edit:b", "run:all"}})
 	runHistories(c, c.Pick(4, 5))
 }
@@ -715,6 +719,10 @@ func replay(c *core.Ctx, raw json.RawMessage) {
 	var cs Case
 	if err := json.Unmarshal(raw, &cs); err != nil {
 		c.Internal("bad case: %v", err)
+		return
+	}
+	if cs.TwoModules {
+		twoModuleHistory(c, cs.Ops)
 		return
 	}
 	rootFirst = cs.RootFirst
